@@ -1311,13 +1311,15 @@ class H2Stream:
         pipeline on them to transform them into the appropriate form for
         attaching to an event.
         """
+        # Validate the block as it was received: normalisation moves cookie
+        # fields, which would hide a pseudo-header that follows one.
+        if self.config.validate_inbound_headers:
+            headers = validate_headers(headers, header_validation_flags)
+
         if self.config.normalize_inbound_headers:
             headers = normalize_inbound_headers(
                 headers, header_validation_flags
             )
-
-        if self.config.validate_inbound_headers:
-            headers = validate_headers(headers, header_validation_flags)
 
         if header_encoding:
             headers = _decode_headers(headers, header_encoding)
